@@ -1,3 +1,3 @@
 From Verif Require Import Extract.C18.
 Require Import ExtrOcamlBasic.
-Extraction "c18_model.ml" c18_observe c18_check_cycle c18_accepts c18_hyps.
+Extraction "c18_model.ml" c18_observe c18_check_cycle c18_accepts c18_hyps c18_observe_cfg c18_discover c18_cfg_hyps.
